@@ -128,7 +128,9 @@ def run_cases(chk, cases, oracle_sig='trace-differs-from-source-semantics', do_g
         if 'gen' in mine:
             model = answers[mine['gen']].split('\x1f') if answers[mine['gen']] else []
             impl = [percent_encode(x) for x in vmwire.enc_program(c.res.program)]
-            if model != impl:
+            if model != impl and vmwire.drop_self_moves(model) == vmwire.drop_self_moves(impl):
+                stats['gen_equal_modulo_self_moves'] = stats.get('gen_equal_modulo_self_moves', 0) + 1
+            elif model != impl:
                 stats['gen_mismatch'] += 1
                 k = next((i for i, (a, b) in enumerate(zip(impl, model)) if a != b),
                          min(len(impl), len(model)))
